@@ -4,26 +4,35 @@
 // bactor.UpdatePermittedAddrMap / GetStorageItem (http/base/actor), with ledger.DefLedger = a real on-disk ledger whose
 // relayer registry and consensus peer pool are changed by real governance transactions committed in real blocks.
 //
-// Explored space (explicit-state, exhaustive):
+// The node is a LIVE PROCESS: one run = one child process of this driver (pristine package state in txnpool/proc and
+// http/base/actor, whatever caches they keep) that replays the governance history on its own ledger up to a start point
+// s, and from s on submits, at EVERY history point, a transaction for every signer set of the alphabet from the peer and
+// the RPC sender type. The driver never resets or inspects package variables; the only seam it owns is the wall clock of
+// the 60 s refresh (`lastTime`): a submission is made either with the stamp fresh (no refresh) or expired (refresh).
 //
-//	state      = (history point i of the governance history, content C of the permitted-address cache)
-//	events     = "next block" (i -> i+1, cache kept) and "submission" of one transaction of the signer alphabet from the
-//	             peer or the RPC sender type with the cache stamp either fresh (no refresh: wall clock seam lastTime = now)
-//	             or expired (lastTime = now-2min: refresh from the ledger) -> (i, C')
+//	run        = (history, start point s, refresh points R): cold start at s (the first submission refreshes), at every
+//	             point one round of submissions without refresh, at the points of R additionally a round with a refresh
+//	             before every submission followed by another round without refresh
+//	explored   = all (s, R) with R = {} or {k}, k >= s (quick: k ranges over the points where the registry / peer pool
+//	             changes; thorough: every k, plus every pair of change points)
 //	alphabet   = every signer set of size <= 2 (both orders) over {r1, r2 (never registered), validator v0, operator multisig,
-//	             outsider} + single signers {r3, candidate c1, quitting validator v4, later operators} + forged entries
+//	             outsider} + single signers {r3, candidate c1, leaving validator v4, later operators} + forged entries
 //
 // Oracle: admitted => some signing address is a registered relayer NOW or a member of the consensus peer pool NOW (or the
 // operator multisig address of that pool); in particular a relayer whose removal reached quorum is refused from the very
-// next submission. Registry / pool "now" come from the driver's declared expectations per history step, cross-checked
-// against the ledger.
+// next submission, whatever this process did before. Registry / pool "now" are the driver's declared expectations per
+// history step, cross-checked against the ledger after every block.
 package main
 
 import (
+	"encoding/json"
 	"fmt"
 	"os"
+	"os/exec"
 	"sort"
+	"strconv"
 	"strings"
+	"sync"
 	"time"
 
 	"github.com/polynetwork/poly/common"
@@ -53,68 +62,49 @@ type step struct {
 
 type probe struct {
 	name    string
-	tx      *types.Transaction
 	signers []string // names of the signing entries (addresses)
-	validly bool     // every entry carries valid signatures
+	ents    []polyenv.Signer
+	validly bool // every entry carries valid signatures
 }
 
-func main() {
-	r := ev.Start("C36", "model_checking")
-	vals := polyenv.Keys(5)
-	polyenv.Setup(0, vals)
-	var ch *polyenv.Chain // the real ledger of the history being explored (one fresh chain per history)
-	openChain := func() func() {
-		dir := polyenv.TmpDir("c36chain")
-		c, err := polyenv.OpenChain(dir, vals)
-		if err != nil {
-			os.RemoveAll(dir)
-			r.HarnessError("open chain: %v", err)
-		}
-		ch = c
-		ledger.DefLedger = ledger.VerifNewLedger(ch.L)
-		return func() { c.Close(); os.RemoveAll(dir) }
-	}
+// env = accounts, signer alphabet and the two governance histories (built identically in the parent and in every child).
+type env struct {
+	vals   []*polyenv.Acct
+	acct   map[string]*polyenv.Acct
+	group  map[string][]*polyenv.Acct
+	addr   map[string]common.Address
+	probes []probe
+	hists  map[string][]step
+}
 
-	// ------------------------------------------------------------------ accounts and addresses
-	acct := map[string]*polyenv.Acct{"r1": polyenv.Key(40), "r2": polyenv.Key(41), "r3": polyenv.Key(42), "out": polyenv.Key(50), "c1": polyenv.Key(20)}
+func setup() *env {
+	e := &env{vals: polyenv.Keys(5)}
+	vals := e.vals
+	polyenv.Setup(0, vals)
+	e.acct = map[string]*polyenv.Acct{"r1": polyenv.Key(40), "r2": polyenv.Key(41), "r3": polyenv.Key(42), "out": polyenv.Key(50), "c1": polyenv.Key(20)}
+	acct := e.acct
 	for i, v := range vals {
 		acct[fmt.Sprintf("v%d", i)] = v
 	}
-	group := map[string][]*polyenv.Acct{
+	e.group = map[string][]*polyenv.Acct{
 		"op5":   vals,                                                       // operator of the genesis epoch
 		"op6":   append(append([]*polyenv.Acct{}, vals...), acct["c1"]),     // after c1 became a consensus node
 		"opNew": append(append([]*polyenv.Acct{}, vals[:4]...), acct["c1"]), // after v4 quit
 		"op4":   vals[:4],                                                   // history B: after v4 was blacklisted
 	}
-	addr := map[string]common.Address{}
+	e.addr = map[string]common.Address{}
+	addr := e.addr
 	for n, a := range acct {
 		addr[n] = a.Addr
 	}
-	for n, g := range group {
+	for n, g := range e.group {
 		addr[n] = polyenv.OperatorAddr(g)
 	}
-	nameOf := map[common.Address]string{}
-	for n, a := range addr {
-		nameOf[a] = n
-	}
-	entry := func(n string) polyenv.Signer {
-		if g, ok := group[n]; ok {
-			s := polyenv.Multi(g)
-			s.Sign = true
-			return s
-		}
-		s := polyenv.Single(acct[n])
-		s.Sign = true
-		return s
-	}
+	entry := e.entry
 
-	// ------------------------------------------------------------------ probes (the signer alphabet)
-	var probes []probe
-	nonce := uint32(1000)
+	// ---- probes (the signer alphabet)
 	add := func(name string, validly bool, names []string, ents ...polyenv.Signer) {
-		nonce++
-		probes = append(probes, probe{name: name, signers: names, validly: validly,
-			tx: polyenv.Tx(nutils.RelayerManagerContractAddress, "probe", []byte(name), nonce, ents...)})
+		e.probes = append(e.probes, probe{name: name, signers: names, validly: validly, ents: ents})
 	}
 	base := []string{"r1", "r2", "v0", "op5", "out"}
 	for _, a := range base {
@@ -135,13 +125,8 @@ func main() {
 	add("v0~signed-by-outsider", false, []string{"v0"}, polyenv.Signer{Keys: []*polyenv.Acct{acct["v0"]}, M: 1, SignWith: []*polyenv.Acct{acct["out"]}})
 	add("op5~one-signature", false, []string{"op5"}, polyenv.Signer{Keys: vals, M: polyenv.Multi(vals).M, SignWith: []*polyenv.Acct{vals[0]}})
 	add("out+r1~signed-by-outsider", false, []string{"out", "r1"}, entry("out"), polyenv.Signer{Keys: []*polyenv.Acct{acct["r1"]}, M: 1, SignWith: []*polyenv.Acct{acct["out"]}})
-	for _, p := range probes { // harness sanity: the stateless validator agrees with what the driver thinks it built
-		if ok := validation.VerifyTransaction(p.tx) == errors.ErrNoError; ok != p.validly {
-			r.HarnessError("probe %s: stateless validation says %v, built as %v", p.name, ok, p.validly)
-		}
-	}
 
-	// ------------------------------------------------------------------ governance history (one real tx per real block)
+	// ---- governance histories (one real tx per real block)
 	gnonce := uint32(0)
 	call := func(contract common.Address, method string, args []byte, signer string) func() *types.Transaction {
 		return func() *types.Transaction {
@@ -175,88 +160,172 @@ func main() {
 		cur.rel, cur.pool, cur.oper = nil, V, V
 		push("genesis", nil)
 	}
+	e.hists = map[string][]step{}
 	// History A: register+approve r1, remove+approve r1, re-add (with r3), remove r3 only; then the consensus set changes:
 	// c1 joins (candidate, then consensus node), v4 quits. N=5 consensus nodes: quorum is 4 approvals.
-	historyA := func() []step {
-		start()
-		push("registerRelayer([r1]) by r1 -> apply 0", call(gov.RM, relayer_manager.REGISTER_RELAYER, gov.RelayerList(addrs("r1"), addr["r1"]), "r1"))
-		quorum(relayer_manager.APPROVE_REGISTER_RELAYER, 0, V[:4], func() { cur.rel = []string{"r1"} })
-		push("removeRelayer([r1]) by out -> remove 0", call(gov.RM, relayer_manager.REMOVE_RELAYER, gov.RelayerList(addrs("r1"), addr["out"]), "out"))
-		quorum(relayer_manager.APPROVE_REMOVE_RELAYER, 0, V[:4], func() { cur.rel = nil })
-		push("registerRelayer([r1,r3]) by r3 -> apply 1", call(gov.RM, relayer_manager.REGISTER_RELAYER, gov.RelayerList(addrs("r1", "r3"), addr["r3"]), "r3"))
-		quorum(relayer_manager.APPROVE_REGISTER_RELAYER, 1, V[1:], func() { cur.rel = []string{"r1", "r3"} })
-		push("removeRelayer([r3]) by v0 -> remove 1", call(gov.RM, relayer_manager.REMOVE_RELAYER, gov.RelayerList(addrs("r3"), addr["v0"]), "v0"))
-		quorum(relayer_manager.APPROVE_REMOVE_RELAYER, 1, V[:4], func() { cur.rel = []string{"r1"} })
-		push("registerCandidate(c1)", call(gov.NM, node_manager.REGISTER_CANDIDATE, gov.RegisterPeer(acct["c1"].PubHex, addr["c1"]), "c1"))
-		for i, v := range V[:4] {
-			if i == 3 {
-				cur.pool = append(append([]string{}, V...), "c1") // candidate status: in the peer pool, not yet an operator key
-			}
-			push("approveCandidate(c1) by "+v, call(gov.NM, node_manager.APPROVE_CANDIDATE, gov.Peer(acct["c1"].PubHex, addr[v]), v))
+	start()
+	push("registerRelayer([r1]) by r1 -> apply 0", call(gov.RM, relayer_manager.REGISTER_RELAYER, gov.RelayerList(addrs("r1"), addr["r1"]), "r1"))
+	quorum(relayer_manager.APPROVE_REGISTER_RELAYER, 0, V[:4], func() { cur.rel = []string{"r1"} })
+	push("removeRelayer([r1]) by out -> remove 0", call(gov.RM, relayer_manager.REMOVE_RELAYER, gov.RelayerList(addrs("r1"), addr["out"]), "out"))
+	quorum(relayer_manager.APPROVE_REMOVE_RELAYER, 0, V[:4], func() { cur.rel = nil })
+	push("registerRelayer([r1,r3]) by r3 -> apply 1", call(gov.RM, relayer_manager.REGISTER_RELAYER, gov.RelayerList(addrs("r1", "r3"), addr["r3"]), "r3"))
+	quorum(relayer_manager.APPROVE_REGISTER_RELAYER, 1, V[1:], func() { cur.rel = []string{"r1", "r3"} })
+	push("removeRelayer([r3]) by v0 -> remove 1", call(gov.RM, relayer_manager.REMOVE_RELAYER, gov.RelayerList(addrs("r3"), addr["v0"]), "v0"))
+	quorum(relayer_manager.APPROVE_REMOVE_RELAYER, 1, V[:4], func() { cur.rel = []string{"r1"} })
+	push("registerCandidate(c1)", call(gov.NM, node_manager.REGISTER_CANDIDATE, gov.RegisterPeer(acct["c1"].PubHex, addr["c1"]), "c1"))
+	for i, v := range V[:4] {
+		if i == 3 {
+			cur.pool = append(append([]string{}, V...), "c1") // candidate status: in the peer pool, not yet an operator key
 		}
-		cur.oper = append(append([]string{}, V...), "c1")
-		push("commitDpos by op5", call(gov.NM, node_manager.COMMIT_DPOS, nil, "op5"))
-		cur.oper = []string{"v0", "v1", "v2", "v3", "c1"} // v4 quitting: still in the pool of this view
-		push("quitNode(v4)", call(gov.NM, node_manager.QUIT_NODE, gov.Peer(acct["v4"].PubHex, addr["v4"]), "v4"))
-		cur.pool = []string{"v0", "v1", "v2", "v3", "c1"}
-		push("commitDpos by opNew", call(gov.NM, node_manager.COMMIT_DPOS, nil, "opNew"))
-		push("empty block", func() *types.Transaction { return nil })
-		return hist
+		push("approveCandidate(c1) by "+v, call(gov.NM, node_manager.APPROVE_CANDIDATE, gov.Peer(acct["c1"].PubHex, addr[v]), v))
 	}
+	cur.oper = append(append([]string{}, V...), "c1")
+	push("commitDpos by op5", call(gov.NM, node_manager.COMMIT_DPOS, nil, "op5"))
+	cur.oper = []string{"v0", "v1", "v2", "v3", "c1"} // v4 quitting: still in the pool of this view
+	push("quitNode(v4)", call(gov.NM, node_manager.QUIT_NODE, gov.Peer(acct["v4"].PubHex, addr["v4"]), "v4"))
+	cur.pool = []string{"v0", "v1", "v2", "v3", "c1"}
+	push("commitDpos by opNew", call(gov.NM, node_manager.COMMIT_DPOS, nil, "opNew"))
+	push("empty block", func() *types.Transaction { return nil })
+	e.hists["A"] = hist
 	// History B: a removal request approved while the registration is still short of quorum, the registration completing
 	// afterwards, both relayers removed by one request; then v4 is blacklisted (blackNode of a consensus node switches
 	// the view at once).
-	historyB := func() []step {
-		start()
-		push("registerRelayer([r1,r3]) by out -> apply 0", call(gov.RM, relayer_manager.REGISTER_RELAYER, gov.RelayerList(addrs("r1", "r3"), addr["out"]), "out"))
-		quorum(relayer_manager.APPROVE_REGISTER_RELAYER, 0, []string{"v4", "v3", "v2"}, func() {})
-		push("removeRelayer([r1]) by r2 -> remove 0", call(gov.RM, relayer_manager.REMOVE_RELAYER, gov.RelayerList(addrs("r1"), addr["r2"]), "r2"))
-		quorum(relayer_manager.APPROVE_REMOVE_RELAYER, 0, V[:4], func() {})
-		quorum(relayer_manager.APPROVE_REGISTER_RELAYER, 0, []string{"v1"}, func() { cur.rel = []string{"r1", "r3"} })
-		push("removeRelayer([r1,r3]) by v0 -> remove 1", call(gov.RM, relayer_manager.REMOVE_RELAYER, gov.RelayerList(addrs("r1", "r3"), addr["v0"]), "v0"))
-		quorum(relayer_manager.APPROVE_REMOVE_RELAYER, 1, V[1:], func() { cur.rel = nil })
-		for i, v := range V[:4] {
-			if i == 3 {
-				cur.pool, cur.oper = V[:4], V[:4]
-			}
-			push("blackNode([v4]) by "+v, call(gov.NM, node_manager.BLACK_NODE, gov.PeerList([]string{acct["v4"].PubHex}, addr[v]), v))
+	start()
+	push("registerRelayer([r1,r3]) by out -> apply 0", call(gov.RM, relayer_manager.REGISTER_RELAYER, gov.RelayerList(addrs("r1", "r3"), addr["out"]), "out"))
+	quorum(relayer_manager.APPROVE_REGISTER_RELAYER, 0, []string{"v4", "v3", "v2"}, func() {})
+	push("removeRelayer([r1]) by r2 -> remove 0", call(gov.RM, relayer_manager.REMOVE_RELAYER, gov.RelayerList(addrs("r1"), addr["r2"]), "r2"))
+	quorum(relayer_manager.APPROVE_REMOVE_RELAYER, 0, V[:4], func() {})
+	quorum(relayer_manager.APPROVE_REGISTER_RELAYER, 0, []string{"v1"}, func() { cur.rel = []string{"r1", "r3"} })
+	push("removeRelayer([r1,r3]) by v0 -> remove 1", call(gov.RM, relayer_manager.REMOVE_RELAYER, gov.RelayerList(addrs("r1", "r3"), addr["v0"]), "v0"))
+	quorum(relayer_manager.APPROVE_REMOVE_RELAYER, 1, V[1:], func() { cur.rel = nil })
+	for i, v := range V[:4] {
+		if i == 3 {
+			cur.pool, cur.oper = V[:4], V[:4]
 		}
-		push("empty block", func() *types.Transaction { return nil })
-		return hist
+		push("blackNode([v4]) by "+v, call(gov.NM, node_manager.BLACK_NODE, gov.PeerList([]string{acct["v4"].PubHex}, addr[v]), v))
 	}
+	push("empty block", func() *types.Transaction { return nil })
+	e.hists["B"] = hist
+	return e
+}
 
-	// ------------------------------------------------------------------ ledger-side cross-check of the expectations
+func (e *env) entry(n string) polyenv.Signer {
+	if g, ok := e.group[n]; ok {
+		s := polyenv.Multi(g)
+		s.Sign = true
+		return s
+	}
+	s := polyenv.Single(e.acct[n])
+	s.Sign = true
+	return s
+}
+
+// permittedAt = the reference "permitted consensus addresses" of a history point: the members of the peer pool plus
+// the operator multisig of the pool / of its consensus-status members.
+func (e *env) permittedAt(st step) map[string]bool {
+	p := map[string]bool{}
+	for _, n := range st.pool {
+		p[n] = true
+	}
+	for g, members := range e.group {
+		var mn []string
+		for _, m := range members {
+			for an, a := range e.acct {
+				if a == m {
+					mn = append(mn, an)
+				}
+			}
+		}
+		if eqs(mn, st.pool) || eqs(mn, st.oper) {
+			p[g] = true
+		}
+	}
+	return p
+}
+
+func sorted(l []string) []string { c := append([]string{}, l...); sort.Strings(c); return c }
+func eqs(a, b []string) bool     { return strings.Join(sorted(a), ",") == strings.Join(sorted(b), ",") }
+
+// changePoints = the points whose registry / pool / operator differ from the previous point.
+func changePoints(h []step) []int {
+	var c []int
+	for i := 1; i < len(h); i++ {
+		if !eqs(h[i].relayers, h[i-1].relayers) || !eqs(h[i].pool, h[i-1].pool) || !eqs(h[i].oper, h[i-1].oper) {
+			c = append(c, i)
+		}
+	}
+	return c
+}
+
+// ---------------------------------------------------------------------------------------------- one run (child process)
+
+type violation struct {
+	Key    string         `json:"key"`
+	Detail map[string]any `json:"detail"`
+}
+
+type runResult struct {
+	Hist        string           `json:"hist"`
+	Start       int              `json:"start"`
+	Refresh     []int            `json:"refresh"`
+	Classes     map[string]int64 `json:"classes"`
+	Cases       []string         `json:"cases"`
+	Stricter    []string         `json:"stricter"`
+	Violations  []violation      `json:"violations"`
+	Submissions int              `json:"submissions"`
+	States      int              `json:"states"` // (point, round) process states visited
+	Blocks      int              `json:"blocks"`
+	HarnessErr  string           `json:"harness_error,omitempty"`
+}
+
+func runChild(hname string, s int, refresh []int) (res runResult) {
+	res = runResult{Hist: hname, Start: s, Refresh: refresh, Classes: map[string]int64{}}
+	fail := func(format string, a ...any) runResult {
+		res.HarnessErr = fmt.Sprintf(format, a...)
+		return res
+	}
+	e := setup()
+	hist := e.hists[hname]
+	dir := polyenv.TmpDir("c36chain")
+	defer os.RemoveAll(dir)
+	ch, err := polyenv.OpenChain(dir, e.vals)
+	if err != nil {
+		return fail("open chain: %v", err)
+	}
+	defer ch.Close()
+	ledger.DefLedger = ledger.VerifNewLedger(ch.L)
+	srv := proc.VerifC36NewServer() // the node's pool server: one for the whole life of the process
+
 	readRegistry := func() []string {
 		var l []string
-		for n, a := range addr {
+		for n, a := range e.addr {
 			v, err := ch.L.GetStorageItem(stKey(gov.RM, append([]byte(relayer_manager.RELAYER), a[:]...)))
 			if err == nil && v != nil && len(v.Value) > 0 {
 				l = append(l, n)
 			}
 		}
-		sort.Strings(l)
 		return l
 	}
-	readPool := func() (pool, oper []string) {
+	readPool := func() (pool, oper []string, err error) {
 		gv, err := ch.L.GetStorageItem(stKey(gov.NM, []byte(node_manager.GOVERNANCE_VIEW)))
 		if err != nil {
-			r.HarnessError("governance view: %v", err)
+			return nil, nil, err
 		}
 		g := new(node_manager.GovernanceView)
 		if err := g.Deserialization(common.NewZeroCopySource(gv.Value)); err != nil {
-			r.HarnessError("governance view: %v", err)
+			return nil, nil, err
 		}
 		pv, err := ch.L.GetStorageItem(stKey(gov.NM, append([]byte(node_manager.PEER_POOL), nutils.GetUint32Bytes(g.View)...)))
 		if err != nil {
-			r.HarnessError("peer pool: %v", err)
+			return nil, nil, err
 		}
 		m := &node_manager.PeerPoolMap{PeerPoolMap: map[string]*node_manager.PeerPoolItem{}}
 		if err := m.Deserialization(common.NewZeroCopySource(pv.Value)); err != nil {
-			r.HarnessError("peer pool: %v", err)
+			return nil, nil, err
 		}
 		for k, it := range m.PeerPoolMap {
 			n := "?" + k[:8]
-			for an, a := range acct {
+			for an, a := range e.acct {
 				if a.PubHex == k {
 					n = an
 				}
@@ -266,260 +335,376 @@ func main() {
 				oper = append(oper, n)
 			}
 		}
-		sort.Strings(pool)
-		sort.Strings(oper)
-		return
+		return pool, oper, nil
 	}
-	sorted := func(l []string) []string { c := append([]string{}, l...); sort.Strings(c); return c }
-	eqs := func(a, b []string) bool { return strings.Join(sorted(a), ",") == strings.Join(sorted(b), ",") }
-
-	// ------------------------------------------------------------------ exploration
-	r.Require("admitted:relayer", "admitted:consensus-node", "admitted:operator", "refused:outsider", "refused:never-registered",
-		"refused:removed-relayer", "refused:relayer-with-pending-approval", "admitted:forged-claim(later refused by the stateless validator)",
-		"cache:refreshed", "cache:kept")
-	type cacheState = string // sorted address names, "" = cold (empty map)
-	keyOf := func(as []common.Address) cacheState {
-		var l []string
-		for _, a := range as {
-			if n, ok := nameOf[a]; ok {
-				l = append(l, n)
-			} else {
-				l = append(l, "?"+a.ToHexString()[:8])
-			}
-		}
-		sort.Strings(l)
-		return strings.Join(l, ",")
+	isRefresh := map[int]bool{}
+	for _, k := range refresh {
+		isRefresh[k] = true
 	}
-	unkey := func(c cacheState) []common.Address {
-		if c == "" {
-			return nil
+	cases, stricter := map[string]bool{}, map[string]bool{}
+	viol := map[string]bool{}
+	nonce := uint32(100000)
+	relayerAt := []map[string]bool{}
+	// reference record of what this process can legitimately still hold: the permitted sets of its refresh points
+	var lastRefreshed map[string]bool // permitted set at the latest refresh
+	earlier := map[string]bool{}      // union of the permitted sets of all earlier refreshes
+	var refreshedAt []int             // for the replay artefact
+	for i, st := range hist {
+		if st.tx != nil {
+			var txs []*types.Transaction
+			if t := st.tx(); t != nil {
+				txs = append(txs, t)
+			}
+			if _, err := ch.Commit(ch.NextBlock(txs, nil)); err != nil {
+				return fail("commit of history step %d (%s): %v", i, st.name, err)
+			}
+			res.Blocks++
 		}
-		var l []common.Address
-		for _, n := range strings.Split(c, ",") {
-			a, ok := addr[n]
-			if !ok {
-				r.HarnessError("cache holds an address the driver cannot name: %s", n)
-			}
-			l = append(l, a)
+		pool, oper, err := readPool()
+		if err != nil {
+			return fail("peer pool at step %d: %v", i, err)
 		}
-		return l
-	}
-	states, transitions, points := 0, 0, 0
-	stricter := map[string]bool{} // admission stricter than the property needs (implication direction): reported, not alarmed
-	var perPoint []map[string]any
-	for _, hb := range []struct {
-		name  string
-		build func() []step
-	}{{"A", historyA}, {"B", historyB}} {
-		hist := hb.build()
-		closeChain := openChain()
-		points += len(hist)
-		reach := map[cacheState]bool{"": true} // cache contents reachable at the current history point
-		relayerAt := []map[string]bool{}
-		for i, st := range hist {
-			if r.Expired() {
-				r.Capped(fmt.Sprintf("history cut at point %d of %d", i, len(hist)))
-				break
-			}
-			if st.tx != nil {
-				var txs []*types.Transaction
-				if t := st.tx(); t != nil {
-					txs = append(txs, t)
-				}
-				if _, err := ch.Commit(ch.NextBlock(txs, nil)); err != nil {
-					r.HarnessError("commit of history step %d (%s): %v", i, st.name, err)
-				}
-				transitions += len(reach) // the "next block" event from every cache state
-			}
-			pool, oper := readPool()
-			if reg := readRegistry(); !eqs(reg, st.relayers) || !eqs(pool, st.pool) || !eqs(oper, st.oper) {
-				r.HarnessError("history step %d (%s): ledger has relayers=%v pool=%v consensus=%v, driver expected %v %v %v", i, st.name, reg, pool, oper, st.relayers, st.pool, st.oper)
-			}
-			// the reference sets of this point
-			registered := map[string]bool{}
-			for _, n := range st.relayers {
-				registered[n] = true
-			}
-			relayerAt = append(relayerAt, registered)
-			permitted := map[string]bool{}
-			for _, n := range st.pool {
-				permitted[n] = true
-			}
-			for g, members := range group { // operator multisig of the pool / of its consensus-status members
-				var mn []string
-				for _, m := range members {
-					mn = append(mn, nameOf[m.Addr])
-				}
-				if eqs(mn, st.pool) || eqs(mn, st.oper) {
-					permitted[g] = true
+		if reg := readRegistry(); !eqs(reg, st.relayers) || !eqs(pool, st.pool) || !eqs(oper, st.oper) {
+			return fail("history %s step %d (%s): ledger has relayers=%v pool=%v consensus=%v, driver expected %v %v %v", hname, i, st.name, sorted(reg), sorted(pool), sorted(oper), st.relayers, st.pool, st.oper)
+		}
+		registered := map[string]bool{}
+		for _, n := range st.relayers {
+			registered[n] = true
+		}
+		relayerAt = append(relayerAt, registered)
+		if i < s {
+			continue // the node is not running yet
+		}
+		permitted := e.permittedAt(st)
+		everRelayer := func(n string) bool {
+			for _, m := range relayerAt {
+				if m[n] {
+					return true
 				}
 			}
-			everRelayer := func(n string) bool {
-				for _, m := range relayerAt {
-					if m[n] {
-						return true
+			return false
+		}
+		pendingApproval := func(n string) bool { // requested, quorum not reached (only r1/r3 in these histories)
+			return !registered[n] && (n == "r1" || n == "r3") && strings.Contains(st.name, "egisterRelayer")
+		}
+		rounds := []string{"fresh"}
+		switch {
+		case i == s:
+			rounds = []string{"expired", "fresh"} // cold start: the very first submission refreshes whatever the stamp says
+		case isRefresh[i]:
+			rounds = []string{"fresh", "expired", "fresh"}
+		}
+		for ri, clock := range rounds {
+			res.States++
+			for _, p := range e.probes {
+				for _, snd := range []tc.SenderType{tc.NetSender, tc.HttpSender} {
+					nonce++
+					t := polyenv.Tx(nutils.RelayerManagerContractAddress, "probe", []byte(p.name), nonce, p.ents...)
+					if res.Submissions < len(e.probes)*2 { // harness sanity (first round): the stateless validator agrees with how the probe was built
+						if ok := validation.VerifyTransaction(t) == errors.ErrNoError; ok != p.validly {
+							return fail("probe %s: stateless validation says %v, built as %v", p.name, ok, p.validly)
+						}
 					}
-				}
-				return false
-			}
-			pendingApproval := func(n string) bool { // requested, quorum not reached (only r1/r3 in this history)
-				return !registered[n] && (n == "r1" || n == "r3") && strings.Contains(st.name, "egisterRelayer")
-			}
-
-			work := sortedKeys(reach)
-			seen := map[cacheState]bool{}
-			for len(work) > 0 {
-				c := work[0]
-				work = work[1:]
-				if seen[c] {
-					continue
-				}
-				seen[c] = true
-				states++
-				for _, clock := range []string{"fresh", "expired"} {
-					for _, p := range probes {
-						for _, snd := range []tc.SenderType{tc.NetSender, tc.HttpSender} {
-							stamp := time.Now().Unix() - 1 // "fresh": refreshed a second ago
-							if clock == "expired" {
-								stamp -= 120
+					cold := res.Submissions == 0
+					stamp := time.Now().Unix() - 1 // "fresh": refreshed a second ago
+					if clock == "expired" {
+						stamp -= 120
+					}
+					if !cold {
+						proc.VerifC36SetStamp(stamp)
+					} else {
+						stamp = proc.VerifC36Stamp()
+					}
+					rcv0 := srv.VerifC36Stats()[tc.RcvStats-1]
+					var reply *tc.TxResult
+					if snd == tc.HttpSender {
+						chn := make(chan *tc.TxResult, 1)
+						srv.VerifC36Submit(snd, t, chn)
+						select {
+						case reply = <-chn:
+						default:
+						}
+					} else {
+						srv.VerifC36Submit(snd, t, nil)
+					}
+					res.Submissions++
+					admitted := srv.VerifC36Tracked(t.Hash())
+					passedGate := srv.VerifC36Stats()[tc.RcvStats-1] == rcv0+1
+					if admitted != passedGate {
+						return fail("admission observation inconsistent for %s: tracked=%v passed-gate=%v", p.name, admitted, passedGate)
+					}
+					refreshed := proc.VerifC36Stamp() != stamp
+					if refreshed != (clock == "expired") {
+						return fail("clock seam: point %d round %s: refreshed=%v", i, clock, refreshed)
+					}
+					if refreshed {
+						res.Classes["clock:refreshed"]++
+						if lastRefreshed != nil {
+							for n := range lastRefreshed {
+								earlier[n] = true
 							}
-							proc.VerifC36SetCache(unkey(c), stamp)
-							s := proc.VerifC36NewServer()
-							var reply *tc.TxResult
-							rcv0 := s.VerifC36Stats()[tc.RcvStats-1]
-							if snd == tc.HttpSender {
-								chn := make(chan *tc.TxResult, 1)
-								s.VerifC36Submit(snd, p.tx, chn)
-								select {
-								case reply = <-chn:
-								default:
-								}
+						}
+						lastRefreshed = permitted
+						if len(refreshedAt) == 0 || refreshedAt[len(refreshedAt)-1] != i {
+							refreshedAt = append(refreshedAt, i)
+						}
+					} else {
+						res.Classes["clock:kept"]++
+					}
+					// ---- oracle
+					why := ""
+					for _, sn := range p.signers {
+						if registered[sn] {
+							why = "relayer"
+						} else if permitted[sn] && why == "" {
+							if _, isGroup := e.group[sn]; isGroup {
+								why = "operator"
 							} else {
-								s.VerifC36Submit(snd, p.tx, nil)
+								why = "consensus-node"
 							}
-							admitted := s.VerifC36Tracked(p.tx.Hash())
-							passedGate := s.VerifC36Stats()[tc.RcvStats-1] == rcv0+1
-							after, last := proc.VerifC36Cache()
-							c2 := keyOf(after)
-							refreshed := last != stamp
-							r.Eval()
-							transitions++
-							if admitted != passedGate {
-								r.HarnessError("admission observation inconsistent for %s: tracked=%v passed-gate=%v", p.name, admitted, passedGate)
+						}
+					}
+					sndName := map[tc.SenderType]string{tc.NetSender: "peer", tc.HttpSender: "rpc"}[snd]
+					detail := func() map[string]any {
+						return map[string]any{"history_name": hname, "node_started_at_point": s, "refresh_points": refresh, "refreshes_so_far_at_points": refreshedAt,
+							"history_point": i, "after_step": st.name, "history": names(hist[:i+1]), "round": fmt.Sprintf("%d/%s", ri, clock),
+							"tx_signers": p.signers, "probe": p.name, "sender": sndName, "registered_now": st.relayers, "peer_pool_now": st.pool,
+							"note": "the node process submitted every probe at every point since its start; nothing of its state was reset"}
+					}
+					report := func(key string) {
+						if !viol[key] {
+							viol[key] = true
+							res.Violations = append(res.Violations, violation{key, detail()})
+						}
+					}
+					switch {
+					case admitted && why != "":
+						if p.validly {
+							res.Classes["admitted:"+why]++
+						} else {
+							// the gate looks at the listed keys only; the pool itself is protected by the stateless validator
+							res.Classes["admitted:forged-claim(later refused by the stateless validator)"]++
+						}
+						cases[fmt.Sprintf("admitted/%s/%s", p.name, why)] = true
+					case admitted:
+						// no signer is a relayer now or a consensus address now
+						staleWindow, staleOld, removedRel := "", "", ""
+						for _, sn := range p.signers {
+							if lastRefreshed[sn] && !permitted[sn] {
+								staleWindow = sn // permitted when this process last refreshed
 							}
-							if refreshed {
-								r.Class("cache:refreshed")
-							} else {
-								r.Class("cache:kept")
+							if earlier[sn] && !lastRefreshed[sn] && !permitted[sn] {
+								staleOld = sn // permitted only at a refresh before the latest one
 							}
-							if refreshed != (clock == "expired" || c == "") {
-								r.HarnessError("clock seam: cache %q clock %s refreshed=%v", c, clock, refreshed)
+							if everRelayer(sn) && !registered[sn] {
+								removedRel = sn
 							}
-							if !seen[c2] {
-								work = append(work, c2)
+						}
+						switch {
+						case staleWindow != "":
+							// explained by the permitted set of the latest refresh, which is less than 60 s old by the node's
+							// clock: documented staleness of the consensus-address cache, counted, not alarmed
+							res.Classes["admitted:stale-consensus-address-within-60s-cache-window"]++
+						case staleOld != "":
+							kind := "departed-consensus-node"
+							if _, g := e.group[staleOld]; g {
+								kind = "former-operator-multisig"
 							}
-							// ---- oracle
-							why := ""
-							for _, sn := range p.signers {
-								if registered[sn] {
-									why = "relayer"
-								} else if permitted[sn] && why == "" {
-									if _, isGroup := group[sn]; isGroup {
-										why = "operator"
-									} else {
-										why = "consensus-node"
-									}
-								}
-							}
-							sndName := map[tc.SenderType]string{tc.NetSender: "peer", tc.HttpSender: "rpc"}[snd]
-							detail := map[string]any{"history_name": hb.name, "history_point": i, "after_step": st.name, "history": names(hist[:i+1]), "tx_signers": p.signers, "probe": p.name,
-								"sender": sndName, "cache_before": c, "cache_after": c2, "clock": clock, "registered_now": st.relayers, "peer_pool_now": st.pool}
-							switch {
-							case admitted && why != "":
-								if p.validly {
-									r.Class("admitted:" + why)
-								} else {
-									// the gate looks at the listed keys only; the pool itself is protected by the stateless validator
-									r.Class("admitted:forged-claim(later refused by the stateless validator)")
-								}
-								r.Case(fmt.Sprintf("admitted/%s/%s", p.name, why))
-							case admitted:
-								// no signer is a relayer now or a consensus address now
-								staleCons, removedRel := "", ""
-								for _, sn := range p.signers {
-									if strings.Contains(","+c2+",", ","+sn+",") && !permitted[sn] {
-										staleCons = sn
-									}
-									if everRelayer(sn) && !registered[sn] {
-										removedRel = sn
-									}
-								}
-								switch {
-								case staleCons != "" && clock == "expired":
-									kind := "departed-consensus-node"
-									if _, g := group[staleCons]; g {
-										kind = "former-operator-multisig"
-									}
-									r.Violation("admission:"+kind+"-admitted-after-cache-refresh", detail)
-									r.Class("admitted:stale-consensus-address-after-refresh")
-								case staleCons != "":
-									// explained by a cache entry, and the 60 s cache has not been refreshed yet: documented
-									// staleness, counted, not alarmed
-									r.Class("admitted:stale-consensus-address-within-60s-cache-window")
-								case removedRel != "":
-									// no cache entry explains it: the removed relayer itself was accepted
-									r.Violation("removal:removed-relayer-still-admitted:"+clockKey(clock)+":"+sndName, detail)
-								default:
-									r.Violation("admission:no-signer-registered-or-permitted:"+sndName, detail)
-								}
-							default:
-								switch {
-								case why != "" && len(p.signers) == 1 && p.validly && why == "relayer":
-									// the canonical case must be accepted
-									r.HarnessError("registered relayer %s refused at %s (cache %q, %s, %s)", p.name, st.name, c, clock, sndName)
-								case why != "":
-									r.Class("refused:although-permitted")
-								stricter[fmt.Sprintf("history %s after %q: %s (%s) refused, cache %q clock %s", hb.name, st.name, p.name, why, c, clock)] = true
-									r.Case(fmt.Sprintf("refused-although-permitted/%s/%s/cold=%v", p.name, why, c == ""))
-								case len(p.signers) == 1 && everRelayer(p.signers[0]):
-									r.Class("refused:removed-relayer")
-								case len(p.signers) == 1 && pendingApproval(p.signers[0]):
-									r.Class("refused:relayer-with-pending-approval")
-								case p.name == "out":
-									r.Class("refused:outsider")
-								case p.name == "r2":
-									r.Class("refused:never-registered")
-								default:
-									r.Class("refused:other")
-								}
-								if snd == tc.HttpSender && reply != nil && reply.Err != errors.ErrNoError {
-									r.Class("refused:rpc-answered-with-error")
-								}
-							}
+							report("admission:" + kind + "-admitted-after-cache-refresh")
+							res.Classes["admitted:stale-consensus-address-after-refresh"]++
+						case removedRel != "":
+							report("removal:removed-relayer-still-admitted:" + clockKey(clock) + ":" + sndName)
+						default:
+							report("admission:no-signer-registered-or-permitted:" + sndName)
+						}
+					default:
+						switch {
+						case why == "relayer" && len(p.signers) == 1 && p.validly:
+							return fail("registered relayer %s refused at %s (start %d, refresh %v, %s, %s)", p.name, st.name, s, refresh, clock, sndName)
+						case why != "":
+							res.Classes["refused:although-permitted"]++
+							stricter[fmt.Sprintf("history %s after %q: %s (%s) refused", hname, st.name, p.name, why)] = true
+						case len(p.signers) == 1 && everRelayer(p.signers[0]):
+							res.Classes["refused:removed-relayer"]++
+						case len(p.signers) == 1 && pendingApproval(p.signers[0]):
+							res.Classes["refused:relayer-with-pending-approval"]++
+						case p.name == "out":
+							res.Classes["refused:outsider"]++
+						case p.name == "r2":
+							res.Classes["refused:never-registered"]++
+						default:
+							res.Classes["refused:other"]++
+						}
+						if snd == tc.HttpSender && reply != nil && reply.Err != errors.ErrNoError {
+							res.Classes["refused:rpc-answered-with-error"]++
 						}
 					}
 				}
 			}
-			reach = seen
-			perPoint = append(perPoint, map[string]any{"history": hb.name, "point": i, "step": st.name, "registered": st.relayers, "peer_pool": st.pool, "cache_states": sortedKeys(seen)})
-			if i < 3 {
-				r.Sample(perPoint[len(perPoint)-1])
+		}
+	}
+	for k := range cases {
+		res.Cases = append(res.Cases, k)
+	}
+	for k := range stricter {
+		res.Stricter = append(res.Stricter, k)
+	}
+	return res
+}
+
+// ---------------------------------------------------------------------------------------------- parent
+
+type runSpec struct {
+	hist    string
+	s       int
+	refresh []int
+}
+
+func main() {
+	if len(os.Args) > 1 && os.Args[1] == "--child" { // --child <hist> <s> <k,k,...|->
+		s, _ := strconv.Atoi(os.Args[3])
+		var refresh []int
+		if os.Args[4] != "-" {
+			for _, x := range strings.Split(os.Args[4], ",") {
+				k, _ := strconv.Atoi(x)
+				refresh = append(refresh, k)
 			}
 		}
-		closeChain()
+		b, _ := json.Marshal(runChild(os.Args[2], s, refresh))
+		os.Stdout.Write(b)
+		return
 	}
-	r.Note("history_points", perPoint)
+	r := ev.Start("C36", "model_checking")
+	e := setup()
+	var specs []runSpec
+	points := 0
+	for _, hn := range []string{"A", "B"} {
+		h := e.hists[hn]
+		points += len(h)
+		cps := changePoints(h)
+		ks := cps
+		if r.Thorough() {
+			ks = nil
+			for k := 1; k < len(h); k++ {
+				ks = append(ks, k)
+			}
+		}
+		for s := 0; s < len(h); s++ {
+			specs = append(specs, runSpec{hn, s, nil})
+			for _, k := range ks {
+				if k > s {
+					specs = append(specs, runSpec{hn, s, []int{k}})
+				}
+			}
+			if r.Thorough() {
+				for x, k1 := range cps {
+					for _, k2 := range cps[x+1:] {
+						if k1 > s {
+							specs = append(specs, runSpec{hn, s, []int{k1, k2}})
+						}
+					}
+				}
+			}
+		}
+	}
+	r.Require("admitted:relayer", "admitted:consensus-node", "admitted:operator", "refused:outsider", "refused:never-registered",
+		"refused:removed-relayer", "refused:relayer-with-pending-approval", "admitted:forged-claim(later refused by the stateless validator)",
+		"clock:refreshed", "clock:kept", "admitted:stale-consensus-address-within-60s-cache-window")
+	var mu sync.Mutex
+	states, transitions, done := 0, 0, 0
+	stricter := map[string]bool{}
+	jobs := make(chan runSpec)
+	var wg sync.WaitGroup
+	for w := 0; w < 8; w++ {
+		wg.Add(1)
+		go func() {
+			defer wg.Done()
+			for sp := range jobs {
+				ks := "-"
+				if len(sp.refresh) > 0 {
+					var l []string
+					for _, k := range sp.refresh {
+						l = append(l, strconv.Itoa(k))
+					}
+					ks = strings.Join(l, ",")
+				}
+				cmd := exec.Command(os.Args[0], "--child", sp.hist, strconv.Itoa(sp.s), ks)
+				cmd.Env = append(os.Environ(), "GOMAXPROCS=2")
+				out, err := cmd.Output()
+				var res runResult
+				if err != nil || json.Unmarshal(out, &res) != nil {
+					r.HarnessError("run %+v failed: %v: %s", sp, err, tail(string(out), 400))
+				}
+				if res.HarnessErr != "" {
+					r.HarnessError("run %+v: %s", sp, res.HarnessErr)
+				}
+				mu.Lock()
+				states += res.States
+				transitions += res.Submissions + res.Blocks
+				done++
+				for k := range res.Stricter {
+					stricter[res.Stricter[k]] = true
+				}
+				mu.Unlock()
+				r.Evals(res.Submissions)
+				for c, n := range res.Classes {
+					for i := int64(0); i < n; i++ {
+						r.Class(c)
+					}
+				}
+				for _, c := range res.Cases {
+					r.Case(c)
+				}
+				for _, v := range res.Violations {
+					r.Violation(v.Key, v.Detail)
+				}
+				if sp.s == 0 && len(sp.refresh) == 0 {
+					r.Sample(map[string]any{"run": fmt.Sprintf("history %s, node started at point %d, no later refresh", sp.hist, sp.s), "submissions": res.Submissions, "process_states": res.States})
+				}
+			}
+		}()
+	}
+	capped := false
+	for _, sp := range specs {
+		if r.Expired() {
+			capped = true
+			break
+		}
+		jobs <- sp
+	}
+	close(jobs)
+	wg.Wait()
+	if capped {
+		r.Capped(fmt.Sprintf("%d of %d runs done at the deadline", done, len(specs)))
+	}
+	var hp []map[string]any
+	for _, hn := range []string{"A", "B"} {
+		for i, st := range e.hists[hn] {
+			hp = append(hp, map[string]any{"history": hn, "point": i, "step": st.name, "registered": st.relayers, "peer_pool": st.pool})
+		}
+		r.Note("change_points_"+hn, changePoints(e.hists[hn]))
+	}
+	r.Note("history_points", hp)
+	r.Note("runs", done)
 	r.Note("refused_although_permitted", sortedKeys(stricter))
-	r.Note("probes", probeNames(probes))
+	r.Note("probes", probeNames(e.probes))
 	r.Assume("the registry / peer pool 'now' are the driver's declared expectations per governance step, cross-checked against the ledger after every block (governance correctness itself is C32/C33)",
-		"a stale consensus address admitted while the 60 s cache has not been refreshed is counted, not alarmed; admitted after a refresh it is a violation",
-		"admission looks at the listed public keys only (signatures are checked by the stateless validator before pooling): forged claims are counted")
+		"a consensus address that was permitted when the node last refreshed (< 60 s ago by its clock) and has left since is counted, not alarmed; one that survives a refresh is a violation; relayers get no such grace",
+		"admission looks at the listed public keys only (signatures are checked by the stateless validator before pooling): forged claims are counted",
+		"the only state the driver touches is the refresh stamp lastTime (the wall-clock seam); every run is a fresh child process carried across the whole history")
 	r.Finish(map[string]any{
-		"rule":        fmt.Sprintf("2 governance histories (%d points) on real ledgers (A: register+approve r1, remove+approve, re-add r1+r3, remove r3, candidate joins, commitDpos, validator quits, commitDpos; B: removal approved before the registration reaches quorum, registration completes, both removed, validator blacklisted) x every reachable content of the permitted-address cache x clock {fresh, expired} x %d signer sets (all subsets <=2 of {r1,r2,validator,operator,outsider} in both orders + r3,c1,v4,later operators + 4 forged) x sender {peer, rpc}; oracle admitted => some signer registered now or in the peer pool now", points, len(probes)),
+		"rule":        fmt.Sprintf("%d runs, each a fresh node process carried over a governance history on its own real ledger (2 histories, %d points: A register+approve r1, remove+approve, re-add r1+r3, remove r3, candidate joins, commitDpos, validator quits, commitDpos; B removal approved before the registration reaches quorum, registration completes, both removed, validator blacklisted): all (start point s, refresh points R) with R={} or {k>s} (quick: k over change points; thorough: all k and all pairs of change points); at every point >= s the process submits %d signer sets (all subsets <=2 of {r1,r2,validator,operator,outsider} in both orders + r3,c1,v4,later operators + 4 forged) x sender {peer, rpc} without refresh, at s and at the points of R also with a refresh before every submission; oracle admitted => some signer registered now or in the peer pool now", done, points, len(e.probes)),
 		"states":      states,
-		"transitions": transitions, "traces_validated_against_impl": transitions,
+		"transitions": transitions, "traces_validated_against_impl": done,
 		"max_depth": points,
 	})
+}
+
+func tail(s string, n int) string {
+	if len(s) > n {
+		return s[len(s)-n:]
+	}
+	return s
 }
 
 func stKey(c common.Address, key []byte) *states.StorageKey {
